@@ -126,7 +126,22 @@ STEPS = [b'.a', b"['a']", b'["a"]', b'.*', b'[*]', b"['a','b']", b'[*,*]', b'[0]
          b'.cnt()', b'[(1)]', b'..[?(@)]', b'[(@.length)]', b'[(@.length-1)]', b'..[(@.length)]', b'[(@)]']
 
 
+def keyword_spellings():
+    """every mixture of upper and lower case of true / false / null (the grammar admits three spellings of each)"""
+    for w in ('true', 'false', 'null'):
+        for mask in itertools.product((0, 1), repeat=len(w)):
+            yield ''.join(ch.upper() if m else ch for ch, m in zip(w, mask)).encode()
+
+
+NUMBER_SPELLINGS = [b'0x1p4', b'0X1.8P+1', b'-0x.8p3', b'0x1p-2', b'+0x10p0', b'0x10', b'0x', b'0x1', b'0xg', b'1_0', b'0b101', b'0o17', b'Inf', b'+Inf', b'NaN', b'.5', b'5.',
+                   b'1e+2', b'1E5', b'+1', b'-0', b'01', b'0e0', b'1e', b'1e+', b'--1', b'1.2.3', b'1e400', b'-1e400', b'4e-400', b'0x1.fffffffffffffp1023', b'0x1p1024']
+
+
 def exhaustive_comparisons():
+    # literals in every spelling the number and keyword rules might or might not admit, on either side of a comparison
+    for lit in itertools.chain(keyword_spellings(), NUMBER_SPELLINGS):
+        yield b'$[?(@.a == ' + lit + b')]'
+        yield b'$[?(' + lit + b' != @.a)]'
     for a, op, b in itertools.product(OPERANDS, OPS, OPERANDS):
         yield b'$[?(' + a + b' ' + op + b' ' + b + b')]'
     # what stands between the slashes goes to regexp.Compile as it is: accepted or rejected by Go's regexp, never anything else
